@@ -273,6 +273,12 @@ func (c *Ctx) Finish(verifDir, tier string, seed int64, started time.Time, level
 		"exhaustive":          false,
 		"load_s":              c.P.LoadTime.Seconds(),
 		"ssa_s":               c.P.SSATime.Seconds(),
+		"normalisation": map[string]interface{}{
+			"what":                  "calls of same-package unexported helpers outside the rule vocabulary are inlined at source level (in memory) before SSA construction; see DESIGN.md §9.10",
+			"helper_calls_inlined":  relSites(c.P.Repo, c.P.NormSites),
+			"helpers_left_as_calls": c.P.NormSkipped,
+			"notes":                 c.P.NormNotes,
+		},
 	}
 	for k, v := range extra {
 		cov[k] = v
@@ -297,4 +303,12 @@ func (c *Ctx) Finish(verifDir, tier string, seed int64, started time.Time, level
 		fmt.Printf("VIOLATION property=%s replay=%s\n", c.Prop, violPath)
 	}
 	return exit
+}
+
+func relSites(repo string, sites []string) []string {
+	out := make([]string, 0, len(sites))
+	for _, s := range sites {
+		out = append(out, strings.TrimPrefix(strings.TrimPrefix(s, repo), "/"))
+	}
+	return out
 }
